@@ -18,7 +18,7 @@ def plan(tier):
     n = 160 if tier == 'quick' else 4000
     return dict(sanitize={'extensions': ['compmech.panel.models.plate_clt_donnell_bardell_num', 'compmech.panel.models.cpanel_clt_donnell_bardell_num'], 'n_cases': 48}, n_cases=n, shards=16, min_nontrivial=n // 3,
                 min_tags={'obj:panel': n // 3, 'obj:assembly': n // 8, 'model:cpanel': n // 10, 'clause:closed_path': n // 10,
-                          'table:per_point': n // 20},
+                          'table:per_point': n // 20, 'order:fresh': n // 8, 'ref_loads': n // 6},
                 watchdog_s=1800 if tier == 'quick' else 10000,
                 rule='plate and cylindrical panels (and assemblies of 2..4 such panels joined by SS/BF/SB penalty connections, shuffled order), '
                      'states with out-of-plane amplitudes 0.1..5 wall thicknesses plus in-plane amplitudes, B-coupled/offset laminates, random edge '
@@ -147,8 +147,18 @@ def case_panel(rng, tier):
     # exact Gauss orders: the statement ties fint -> K0 c and kT(0) = K0 to orders that integrate exactly
     nx, ny = orders(rng, p, True)
     c.desc.update(nx=nx, ny=ny, per_point=per_point)
+    # the linear stiffness the clauses refer to comes from a twin object in 40% of the cases: the object under test is then
+    # fresh (nothing evaluated on it) when its internal force is first asked for
+    fresh = bool(rng.random() < 0.4)
+    pk = gen.build_panel(d) if fresh else p
+    c.tag('order:fresh' if fresh else 'order:k0_first')
+    # buckling reference loads left on the object (what a preceding lb run leaves behind): no part of fint / kT
+    if rng.random() < 0.5:
+        p.Nxx, p.Nyy, p.Nxy = gen.load_triple(rng, float(10 ** rng.uniform(0, 5)))
+        c.desc['ref_loads'] = [p.Nxx, p.Nyy, p.Nxy]
+        c.tag('ref_loads')
     try:
-        K0 = p.calc_k0(silent=True).toarray()
+        K0 = pk.calc_k0(silent=True).toarray()
     except Exception as e:
         return c.reject('%s in calc_k0: %s' % (type(e).__name__, str(e)[:100]))
     Farg = None
@@ -158,11 +168,11 @@ def case_panel(rng, tier):
             # a table that really varies from point to point: F(p) = s(p) * F; the linear stiffness of the clauses
             # below is then the numerically integrated one with the same table
             spt = rng.uniform(0.5, 1.5, size=(nx, ny))
-            Farg = np.ascontiguousarray(np.asarray(p.F)[None, None, :, :] * spt[:, :, None, None])
-            K0 = p.calc_k0(silent=True, c=np.zeros(size), nx=nx, ny=ny, Fnxny=Farg).toarray()
+            Farg = np.ascontiguousarray(np.asarray(pk.F)[None, None, :, :] * spt[:, :, None, None])
+            K0 = pk.calc_k0(silent=True, c=np.zeros(size), nx=nx, ny=ny, Fnxny=Farg).toarray()
             c.tag('table:varying')
         else:
-            Farg = np.ascontiguousarray(np.broadcast_to(np.asarray(p.F), (nx, ny, 6, 6)).copy())
+            Farg = np.ascontiguousarray(np.broadcast_to(np.asarray(pk.F), (nx, ny, 6, 6)).copy())
 
     def fint(cv):
         c.hit('calc_fint')
@@ -173,7 +183,17 @@ def case_panel(rng, tier):
         return p.calc_kT(c=np.ascontiguousarray(cv), silent=True, nx=nx, ny=ny, Fnxny=Farg).toarray()
     wmask = np.zeros(size, bool); wmask[2::3] = True
     try:
+        if fresh:
+            # the very first evaluation on the object is an internal force at a deformed state
+            cprobe = rng.normal(size=size) * t
+            cprobe[~wmask] *= 0.05
+            f_first = fint(cprobe)
         cvec, amp = judge_object(c, rng, fint, kT, K0, size, wmask, t, '')
+        if fresh:
+            f_again = fint(cprobe)
+            den = np.abs(f_again) + 1e-9 * np.abs(f_again).max() + 1e-300
+            c.judge('fint asked first on a fresh object equals fint of the same state asked after the other evaluations',
+                    float((np.abs(f_first - f_again) / den).max()), 1e-12)
     except Exception as e:
         return c.reject('%s in fint/kT: %s' % (type(e).__name__, str(e)[:100]))
     if rng.random() < 0.4:
@@ -218,6 +238,9 @@ def case_assembly(rng, tier):
         # same Gauss orders for every call: exact ones per panel
         for p in ps:
             p.nx, p.ny = orders(rng, p, True)
+            if rng.random() < 0.4:
+                p.Nxx, p.Nyy, p.Nxy = gen.load_triple(rng, float(10 ** rng.uniform(0, 5)))
+                c.tag('ref_loads')
         K0 = ass.calc_k0(silent=True).toarray()
     except Exception as e:
         return c.reject('%s building assembly: %s' % (type(e).__name__, str(e)[:100]))
